@@ -151,7 +151,10 @@ pub fn generate(prop: &str, rng: &mut Rng, tier: Tier) -> Scenario {
         // inputs: mostly all deployed callable contracts; sometimes a subset; rarely the extra one
         let drop_some = mix.wild >= 5;
         let mut input_contracts: Vec<u8> = (0..n_dep as u8).filter(|_| !(drop_some && g.chance(1, 6))).collect();
-        if drop_some && g.chance(1, 6) {
+        // C31: one transaction in eight is refused by the VM at initialisation (it lists a
+        // contract that does not exist), so that later transactions run on an instance that has
+        // just reported an error
+        if (drop_some && g.chance(1, 6)) || (prop == "C31" && g.chance(1, 8)) {
             input_contracts.push(n_dep as u8);
         }
         let mut outputs = Vec::new();
